@@ -213,7 +213,9 @@ def get_unescaped_str(string: str, qm: str) -> str:
     for i in string:
         if i == qm:
             out.append(f"\\{qm}")
-        elif ord(i) > 255:
+        elif ord(i) > 255 and not 0xD800 <= ord(i) <= 0xDFFF:
+            # (a lone surrogate cannot be encoded in the source text,
+            # it has to be written as an escape sequence)
             out.append(i)
         else:
             out.append(ascii(i)[1:-1])
